@@ -6,7 +6,7 @@ export GOFLAGS=-mod=mod GOPROXY=off GOSUMDB=off GOTOOLCHAIN=local GOWORK=off
 cd /verif
 ALL=$(./bin/jpverif rules 2>/dev/null | awk '{print $1=="!"?$2:$1}' | grep "^R-" | sort -u | tr '\n' ' ')
 WT=${WT:-/tmp/wt/mut}
-for d in /tmp/seedout/[RSTUVWX]*/*/; do
+for d in /tmp/seedout/[RSTUVWXY]*/*/; do
   [ -f "$d/patch.diff" ] && [ -f "$d/meta.json" ] || continue
   a=$(basename $(dirname $d)); k=$(basename $d); id="ref-$a$k"
   [ -f variants/silent/$id.diff ] && continue
